@@ -248,6 +248,10 @@ def _closeerr_monitor(op, im):
         return "err-nil-after-failure"
     if r.get("err") != want:
         return "err-wrong-cause"
+    if k["cause"] != "close" and r.get("atdone") == "nil":
+        return "err-nil-when-done-closes"
+    if k["cause"] == "close" and r.get("atdone") == "err":
+        return "err-not-nil-at-done-during-clean-close"
     if r.get("late") != "fails":
         return "rpc-after-termination-does-not-fail"
     if "rpc" in r:
@@ -874,7 +878,7 @@ PROPS = {
         "lean_targets": ["Proofs.Props.C11"],
         "prop_files": ["Proofs/Props/C11.lean"],
         "families": [CWORLD("C11"), SWORLD("C11"), W1("C11"), SUPPORTED, NEGOTIATE],
-        "side_conditions": ["Proofs.Facts.supported_enabled", "Proofs.Facts.supported_disabled", "Proofs.Facts.settings_stream_id", "Proofs.Facts.negotiate_header"],
+        "side_conditions": ["Proofs.Facts.supported_enabled", "Proofs.Facts.supported_disabled", "Proofs.Facts.settings_stream_id", "Proofs.Facts.negotiate_header", "Proofs.Facts.context_wiring"],
         "trusted_base": ["Negotiate.lean model of the revision loop in recvLoop and of supportedRevisions",
                          "L-frame client endpoint model TunnelModel/LFrame/Client.lean (settings phase)"],
         "assumptions": ["the negotiate header is exchanged by grpc-go metadata as the handlers expect (exercised in the W2 interop family)"],
@@ -917,7 +921,7 @@ PROPS = {
         "lean_targets": ["Proofs.Props.C13"],
         "prop_files": ["Proofs/Props/C13.lean"],
         "families": [W1("C13"), SWORLD("C13"), CWORLD("C13"), PUMP, SENDALL],
-        "side_conditions": ["Proofs.Facts.chunkMax_eq", "Proofs.Facts.settings_stream_id"],
+        "side_conditions": ["Proofs.Facts.chunkMax_eq", "Proofs.Facts.settings_stream_id", "Proofs.Facts.context_wiring"],
         "trusted_base": ["L-frame endpoint models and Framing.lean; the wire grammar monitors ServerWire / ClientWire (checklib/monitors.py) on the real frames"],
         "assumptions": ["handlers and callers follow the gRPC contract where the theorems say so (one SendMsg at a time, no SendMsg after CloseSend, unary reply is the handler's last call)",
                         "frames are observed after proto.Marshal/Unmarshal in the harness carrier; protobuf field encoding itself is grpc-go's / protobuf-go's"],
